@@ -24,6 +24,10 @@
 // Signature = <what>[:waiter-still-queued|:waiter-not-queued]:main=<kinds of main-context action needed: resume, cancel, post, reuse>:steps=<program size class>.
 // A supervising parent forks the enumerating child; a run that never ends (CPU watchdog, confirmed by repeating it) or kills the
 // child is reported with the run that was executing, and the enumeration continues after that program.
+// The project's own debug build keeps TBOX_ASSERT (main-context-only / routine-only contracts, ~Routine's "started => dead"); the check's
+// common flags carry -DNDEBUG, so the asserts are switched back on for the coroutine code that is compiled as part of THIS file
+// (scheduler.cpp and the header-only primitives). An assert that fires is an abort = a reported crash of the run.
+#undef NDEBUG
 #include <tbox/coroutine/scheduler.cpp>   // file-local Scheduler::Data / Routine are needed for the quiescence check
 #include <tbox/coroutine/channel.hpp>
 #include <tbox/coroutine/mutex.hpp>
@@ -33,7 +37,10 @@
 #include <tbox/event/loop.h>
 #include <tbox/event/common_loop.h>
 
+#include "probe.h"
 #include <chrono>
+#include <list>
+#include <memory>
 #include <csignal>
 #include <cstdio>
 #include <cstdlib>
@@ -56,32 +63,37 @@ static double now_s() { using namespace std::chrono; return duration_cast<durati
 // cw = wait() only - so that posts can fall between add() and wait(), add() can be called during a wait, and one-element sets exist.
 // createS = create(run_now = false) (child stays suspended until somebody resumes or cancels it), resumec = resume(child) from a routine,
 // cancel+0 = a routine cancels itself. crit = lock(); yield(); unlock() in one step (a critical section that is left for one round, the
-// Mutex::Locker shape) - lets 4 routines contend for the mutex with one-step scripts.
+// Mutex::Locker shape) - lets 4 routines contend for the mutex with one-step scripts. critL = the same critical section written with a real
+// Mutex::Locker object (constructor locks, destructor unlocks; the routine looks at isCanceled() because a Locker has no return code).
 enum Op { YIELD, SEND, RECV, LOCK, UNLOCK, ACQ, REL, BWAIT, BPOST, CWAIT, CPOST1, CPOST2,
           JOIN1, JOIN2, CANCEL1, CANCEL2, CREATEY, CREATEW, JOINC, CANCELC,
-          CADD, CADD1, CADD2, CW, CREATES, RESUMEC, CANCEL0, CRIT, NOPS };
+          CADD, CADD1, CADD2, CW, CREATES, RESUMEC, CANCEL0, CRIT, CRITL, NOPS };
 static const char *kOpName[] = {"yield", "send", "recv", "lock", "unlock", "acq", "rel", "bwait", "bpost", "cwait", "cpost1", "cpost2",
                                 "join+1", "join+2", "cancel+1", "cancel+2", "createY", "createW", "joinc", "cancelc",
-                                "cadd", "cadd1", "cadd2", "cw", "createS", "resumec", "cancel+0", "crit"};
+                                "cadd", "cadd1", "cadd2", "cw", "createS", "resumec", "cancel+0", "crit", "critL"};
 static int op_by_name(const std::string &s) { for (int i = 0; i < NOPS; i++) if (s == kOpName[i]) return i; return -1; }
 
 static const int MAXNR = 4, MAXR = 12, MAXLEN = 4, MAXPASS = 40, MAXTAIL = MAXPASS + 1;   // MAXR: 2 sessions x (4 routines + 2 children)
-static const size_t STACK = 64 * 1024;   // stack size is not part of the property; generous so the harness body fits
+static size_t STACK = 64 * 1024;   // stack size is not part of the property; generous so the harness body fits (flag "stackdefault": create()'s default)
 
 struct Script { uint8_t n = 0; uint8_t op[MAXLEN] = {0, 0, 0, 0}; };
 struct Prog { int nr = 0; Script s[MAXNR]; int param = 0; };
 // main-context actions: besides resume / cancel / cleanup the main context also PRODUCES (all of these calls are legal outside a routine):
 // channel << v, semaphore.release(), broadcast.post(), condition.post(1|2)
-enum ActKind { A_PASS, A_RESUME, A_CANCEL, A_CLEANUP, A_SEND, A_REL, A_BPOST, A_CPOST1, A_CPOST2, NACTS };
+// cleanup+turn = cleanup(), then the loop gets a turn (every deferred call queued so far runs) BEFORE the scheduler is used again;
+// plain cleanup = the second session is created in the same loop callback. create = the main context creates one more routine
+// (script of routine 0) mid-run.
+enum ActKind { A_PASS, A_RESUME, A_CANCEL, A_CLEANUP, A_SEND, A_REL, A_BPOST, A_CPOST1, A_CPOST2, A_CLEANUPT, A_CREATE, NACTS };
 struct Act { uint8_t k, r; };
 
 static std::string script_str(const Script &s) { std::string o = "["; for (int i = 0; i < s.n; i++) { if (i) o += ' '; o += kOpName[s.op[i]]; } return o + "]"; }
 static std::string act_str(const Act &a) { char b[24]; switch (a.k) { case A_PASS: return "pass"; case A_RESUME: snprintf(b, 24, "resume(r%d)", a.r); return b; case A_CANCEL: snprintf(b, 24, "cancel(r%d)", a.r); return b;
+  case A_CLEANUPT: return "cleanup+turn"; case A_CREATE: return "create";
   case A_SEND: return "send"; case A_REL: return "rel"; case A_BPOST: return "bpost"; case A_CPOST1: return "cpost1"; case A_CPOST2: return "cpost2"; default: return "cleanup"; } }
 static std::string run_str(const Prog &p, const std::vector<Act> &sc) {
   std::string o = "param=" + std::to_string(p.param) + " |";
   for (int r = 0; r < p.nr; r++) o += " r" + std::to_string(r) + "=" + script_str(p.s[r]);
-  o += " | main=["; for (size_t i = 0; i < sc.size(); i++) { if (i) o += ' '; o += act_str(sc[i]); } o += "] then pass-until-idle, cleanup";
+  o += " | main=["; for (size_t i = 0; i < sc.size(); i++) { if (i) o += ' '; o += act_str(sc[i]); } o += "] then pass-until-idle, destroy";
   return o;
 }
 
@@ -89,7 +101,7 @@ static std::string run_str(const Prog &p, const std::vector<Act> &sc) {
 // shared memory between the supervising parent and the enumerating child (survives hang / crash of the child)
 struct Shm {
   volatile long cur_prog; volatile int phase; volatile int finished; volatile int capped;
-  volatile long loops, programs, executions, transitions, states, traces, qchecks, viol_runs, cancels, cleanups_mid, mainposts, sessions2;
+  volatile long loops, programs, executions, transitions, states, traces, qchecks, viol_runs, cancels, cleanups_mid, mainposts, sessions2, sessions2_turn, hookpoints, started, dtors_live, maincreates;
   Prog prog; int nsched; Act sched[2 * MAXTAIL + 8];   // the run being executed (formatted by the parent if the child dies)
 };
 static Shm *shm;
@@ -106,13 +118,16 @@ struct RInfo {
   bool susp = false;        // created with run_now = false
   bool kicked = false;      // somebody resumed or cancelled it (a suspended-created routine has to start only after that)
   bool dropped = false;     // never started, removed by cleanup()
+  bool csat = false;        // the condition set was satisfied while this routine was suspended in wait(): it must be resumed by the next idle point
 };
 struct World {
   Scheduler *sch; Channel<int> *ch; Mutex *mu; Semaphore *sem; Broadcast *bc; Condition<int> *cond;
   RInfo R[MAXR]; int nrt, NR;
   int sent, nrecv; unsigned holders; int acq, rel, init;
-  bool bposted[MAXR]; int cwaiter; unsigned cpending; bool csat; bool any_logic;
+  bool bposted[MAXR]; int cwaiter; unsigned cpending; bool any_logic;
   unsigned mainmask; unsigned epoch; bool in_cleanup; int nchild;   // nchild: children made in the current session
+  bool cstale;              // a Condition wait ended by cancel / foreign resume (or a cancelled routine called wait()): from then on refusals are not judged
+  bool joined[MAXR];        // somebody has already called join() on this routine (a second joiner is refused by design)
   std::vector<std::pair<std::string, std::string>> viols; std::vector<uint32_t> trace;
 };
 static World g;
@@ -154,7 +169,8 @@ static void do_bpost() {
 static void do_cpost(int v) {
   if (g.cpending & v) {
     if (g.any_logic) g.cpending = 0; else g.cpending &= ~v;
-    if (!g.cpending && g.cwaiter >= 0 && g.R[g.cwaiter].blocked == CWAIT) g.csat = true;
+    // satisfied: that wait is over (the routine has to be resumed), and the condition is free for the next waiter from this moment
+    if (!g.cpending && g.cwaiter >= 0 && g.R[g.cwaiter].blocked == CWAIT) { g.R[g.cwaiter].csat = true; g.cwaiter = -1; }
   }
   g.cond->post(v);
 }
@@ -167,7 +183,7 @@ static int spawn(const Script &sc, int base, bool run_now = true) {
 }
 
 static void body(int r) {
-  RInfo &me = g.R[r]; me.started = true; bool fail = false; bool ok;
+  RInfo &me = g.R[r]; me.started = true; bool fail = false; bool ok; shm->started++;
   Scheduler &sch = *g.sch;
   // A blocking call reports failure to a routine that was cancelled (or cleaned up). The converse is judged for recv / lock / acquire /
   // broadcast-wait only: a routine that nobody cancelled and that leaves such a call with failure has lost the value / mutex / unit /
@@ -191,6 +207,13 @@ static void body(int r) {
           if (sch.isCanceled()) fail = true;            // the failure path below releases the mutex, as Mutex::Locker would
           else { g.mu->unlock(); g.holders &= ~(1u << r); }
           ev(r, op, fail); } break;
+      case CRITL: { me.blocked = LOCK; me.barg = 0; me.must_fail = false;
+        { Mutex::Locker l(*g.mu); me.blocked = -1; me.must_fail = false;
+          if (!sch.isCanceled()) { ev(r, LOCK, 1); g.holders |= 1u << r; if (g.holders & (g.holders - 1)) viol("mutex-two-holders");
+            me.blocked = YIELD; sch.yield(); me.blocked = -1; if (sch.isCanceled()) fail = true; }
+          else { ev(r, LOCK, 0); fail = true; }
+        }                                               // ~Locker: unlock()
+        g.holders &= ~(1u << r); ev(r, op, fail); } break;
       case UNLOCK: g.mu->unlock(); g.holders &= ~(1u << r); ev(r, op, 0); break;
       case ACQ: BLOCK(ACQ, 0, g.sem->acquire()); ev(r, op, ok);
         if (ok) { g.acq++; if (g.acq > g.rel + g.init) viol("semaphore-acquisitions-exceed-releases-plus-initial"); } break;
@@ -203,17 +226,25 @@ static void body(int r) {
         // one waiter at a time is the documented use; a second one, or a wait on an empty set, is refused by wait() (not judged)
         if (op == CWAIT && g.cwaiter < 0) { g.cond->add(1); g.cond->add(2); g.cpending |= 3; }
         bool mine = g.cwaiter < 0 && g.cpending != 0;
-        if (mine) { g.cwaiter = r; g.csat = false; }
-        unsigned e0 = g.epoch;
-        BLOCK(CWAIT, 0, g.cond->wait()); ev(r, op, ok);
+        if (mine) { g.cwaiter = r; me.csat = false; }
+        unsigned e0 = g.epoch; bool gone = me.cancel_issued || g.in_cleanup;
+        BLOCK(CWAIT, 0, g.cond->wait()); bool suspended = g.epoch != e0; ev(r, op, ok);
+        // The model decides when a refusal is legitimate: somebody else is waiting, the set is empty, the caller is cancelled, or an
+        // earlier wait ended by cancel / foreign resume (from then on nothing is judged: what such a wait leaves behind is not specified).
+        if (!ok && mine && !suspended && !gone && !g.cstale) viol("condition-wait-refused-although-nobody-waits-and-the-set-is-not-empty");
         // a wait that really suspended consumes the set when it returns; a refused wait() (it came back at once) changes nothing
-        if (mine) { g.cwaiter = -1; g.csat = false; if (g.epoch != e0) g.cpending = 0; } } break;
+        if (mine) { if ((suspended && !me.csat) || gone) g.cstale = true; if (g.cwaiter == r) g.cwaiter = -1; me.csat = false; if (suspended) g.cpending = 0; }
+        else if (suspended) g.cstale = true;            // accepted although the model expected a refusal: nothing more is judged about refusals
+        } break;
       case CPOST1: case CPOST2: do_cpost(op == CPOST1 ? 1 : 2); ev(r, op, 0); break;
       case JOIN1: case JOIN2: case JOINC: {
         int t = op == JOINC ? me.child : (me.base >= 0 ? me.base + (r - me.base + (op == JOIN1 ? 1 : 2)) % g.NR : -1);
         if (t < 0 || t == r || !g.R[t].created) { ev(r, op, 9); break; }
+        bool firstj = !g.joined[t], gone = me.cancel_issued || g.in_cleanup; g.joined[t] = true;
         BLOCK(JOIN1, t, sch.join(g.R[t].tok)); ev(r, op, ok);
-        if (ok && !g.R[t].finished) viol("join-returned-success-before-target-finished"); } break;
+        if (ok && !g.R[t].finished) viol("join-returned-success-before-target-finished");
+        // join returns once its target has finished: the first joiner of a live target may come back early only when it is cancelled itself
+        if (!ok && firstj && !gone && !me.cancel_issued && !g.in_cleanup && !g.R[t].finished) viol("join-refused-although-target-alive-and-nobody-joined-it"); } break;
       case CANCEL0: case CANCEL1: case CANCEL2: case CANCELC: {
         int t = op == CANCELC ? me.child : op == CANCEL0 ? r : (me.base >= 0 ? me.base + (r - me.base + (op == CANCEL1 ? 1 : 2)) % g.NR : -1);
         if (t < 0 || (t == r && op != CANCEL0) || !g.R[t].created) { ev(r, op, 9); break; }
@@ -229,11 +260,23 @@ static void body(int r) {
   me.blocked = -1; me.finished = true; ev(r, 31, fail);
 }
 
-// waiter queues are std::queue in the tree as it stands; accept a plain std::deque too so that candidate fixes can be checked
-template <class T> static const std::deque<T> &cont(const std::queue<T> &q) { return q.c; }
-template <class T> static const std::deque<T> &cont(const std::deque<T> &q) { return q; }
+// Private members that only feed the canonical state key / the diagnostic suffix of a signature are read through probes (probe.h): if a
+// refactoring renames one of them the harness still builds, the key falls back to a default and "@INFO missing-member" says so.
+VF_PROBE(token_) VF_PROBE(wait_tokens_) VF_PROBE(conds_) VF_PROBE(wait_token_) VF_PROBE(is_canceled) VF_PROBE(state)
+// a waiter list of any usual container type, copied through the public interface of that container
+struct TokList { std::vector<RoutineToken> v; bool known = false;
+  TokList() {}
+  TokList(const std::deque<RoutineToken> &c) : v(c.begin(), c.end()), known(true) {}
+  TokList(const std::vector<RoutineToken> &c) : v(c), known(true) {}
+  TokList(const std::list<RoutineToken> &c) : v(c.begin(), c.end()), known(true) {}
+  TokList(std::queue<RoutineToken> c) : known(true) { while (!c.empty()) { v.push_back(c.front()); c.pop(); } }
+};
 static int tok2idx(const RoutineToken &t) { for (int i = 0; i < g.nrt; i++) if (g.R[i].created && g.R[i].tok.equal(t)) return i; return -1; }
-template <class Q> static bool queued(const Q &q, const RoutineToken &t) { for (auto &x : q) if (x.equal(t)) return true; return false; }
+static const char *queued(const TokList &q, const RoutineToken &t) {      // diagnostic suffix only
+  if (!q.known) return ":waiter-queue-unknown";
+  for (auto &x : q.v) if (x.equal(t)) return ":waiter-still-queued"; return ":waiter-not-queued"; }
+// "the scheduler runs out of ready routines": the ready queue of the scheduler under test (needed to set the experiment up; see also the
+// stall detection in run(): ready routines that no scheduler round ever picks up are reported, whatever the queue is called)
 static bool quiescent() { return g.sch->d_->ready_routines.empty(); }
 
 static std::unordered_set<size_t> g_states, g_traces;
@@ -258,7 +301,7 @@ static void qcheck() {
   for (int r = 0; r < g.nrt; r++) {
     RInfo &X = g.R[r];
     Routine *rt = g.sch->d_->routine_cabinet.at(X.tok);
-    char b[64]; snprintf(b, sizeof b, "%d.%d.%d.%d%d%d%d.%d;", X.pc, X.blocked, X.barg, X.started, X.finished, X.failed, rt ? (int)rt->is_canceled : 2, rt ? (int)rt->state : 9); canon += b;
+    char b[64]; snprintf(b, sizeof b, "%d.%d.%d.%d%d%d%d.%d;", X.pc, X.blocked, X.barg, X.started, X.finished, X.failed, rt ? VF_GET(is_canceled, *rt, 3) : 2, rt ? VF_GET(state, *rt, 8) : 9); canon += b;
     if (X.finished) { if (rt) viol("finished-routine-still-registered"); continue; }
     if (!rt) { viol("unfinished-routine-vanished"); continue; }
     if (!X.started && X.susp && !X.kicked) continue;      // create(run_now = false): stays suspended until somebody resumes or cancels it
@@ -266,23 +309,24 @@ static void qcheck() {
     if (X.cancel_issued) viol("cancelled-routine-not-terminated-when-idle");
     const char *where = "";
     switch (X.blocked) {
-      case RECV: if (g.sent - g.nrecv > 0) {     /* non-empty according to the MODEL: values sent and not yet received */ where = queued(cont(g.ch->token_), X.tok) ? ":waiter-still-queued" : ":waiter-not-queued"; viol(std::string("lost-wakeup-channel-nonempty-receiver-suspended") + where); } break;
-      case LOCK: if (g.holders == 0) {     /* free according to the MODEL (nobody whose lock() succeeded still holds it), not according to the implementation's own bookkeeping */ where = queued(cont(g.mu->wait_tokens_), X.tok) ? ":waiter-still-queued" : ":waiter-not-queued"; viol(std::string("lost-wakeup-mutex-free-waiter-suspended") + where); } break;
-      case ACQ: if (g.init + g.rel - g.acq > 0) {     /* positive according to the MODEL: initial + releases - successful acquisitions */ where = queued(cont(g.sem->token_), X.tok) ? ":waiter-still-queued" : ":waiter-not-queued"; viol(std::string("lost-wakeup-semaphore-positive-waiter-suspended") + where); } break;
+      case RECV: if (g.sent - g.nrecv > 0) {     /* non-empty according to the MODEL: values sent and not yet received */ where = queued(VF_GET(token_, *g.ch, TokList()), X.tok); viol(std::string("lost-wakeup-channel-nonempty-receiver-suspended") + where); } break;
+      case LOCK: if (g.holders == 0) {     /* free according to the MODEL (nobody whose lock() succeeded still holds it), not according to the implementation's own bookkeeping */ where = queued(VF_GET(wait_tokens_, *g.mu, TokList()), X.tok); viol(std::string("lost-wakeup-mutex-free-waiter-suspended") + where); } break;
+      case ACQ: if (g.init + g.rel - g.acq > 0) {     /* positive according to the MODEL: initial + releases - successful acquisitions */ where = queued(VF_GET(token_, *g.sem, TokList()), X.tok); viol(std::string("lost-wakeup-semaphore-positive-waiter-suspended") + where); } break;
       case BWAIT: if (g.bposted[r]) viol("lost-wakeup-broadcast-posted-waiter-suspended"); break;
-      case CWAIT: if (g.cwaiter == r && g.csat) viol("lost-wakeup-condition-satisfied-waiter-suspended"); break;
+      case CWAIT: if (X.csat) viol("lost-wakeup-condition-satisfied-waiter-suspended"); break;
       case JOIN1: if (g.R[X.barg].finished) viol("join-target-finished-joiner-suspended"); break;
       case YIELD: viol("yielded-routine-not-ready-when-idle"); break;
       default: viol("harness-routine-suspended-outside-blocking-call"); break;
     }
   }
   // primitive state (token queues as routine indices; x = token of a routine that no longer exists)
-  auto toks = [&](const std::deque<RoutineToken> &q) { for (auto &t : q) { int i = tok2idx(t); bool alive = i >= 0 && !g.R[i].finished; canon += alive ? char('0' + i) : 'x'; } canon += '|'; };
-  canon += "ch" + std::to_string(g.ch->queue_.size()) + ":"; toks(cont(g.ch->token_));
-  canon += "mu" + std::to_string(g.mu->hold_token_.isNull() ? -1 : tok2idx(g.mu->hold_token_)) + ":"; toks(cont(g.mu->wait_tokens_));
-  canon += "se" + std::to_string(g.sem->count_) + ":"; toks(cont(g.sem->token_));
-  canon += "bc"; for (auto &t : g.bc->wait_tokens_) { int i = tok2idx(t); canon += (i >= 0 && !g.R[i].finished) ? char('0' + i) : 'x'; }
-  canon += "|co" + std::to_string(g.cond->conds_.size()) + (g.cond->wait_token_.isNull() ? "n" : std::to_string(tok2idx(g.cond->wait_token_)));
+  auto toks = [&](const TokList &q) { if (!q.known) canon += '?'; for (auto &t : q.v) { int i = tok2idx(t); bool alive = i >= 0 && !g.R[i].finished; canon += alive ? char('0' + i) : 'x'; } canon += '|'; };
+  canon += "ch" + std::to_string(g.sent - g.nrecv) + ":"; toks(VF_GET(token_, *g.ch, TokList()));
+  canon += "mu" + std::to_string(g.holders) + ":"; toks(VF_GET(wait_tokens_, *g.mu, TokList()));
+  canon += "se" + std::to_string(g.init + g.rel - g.acq) + ":"; toks(VF_GET(token_, *g.sem, TokList()));
+  canon += "bc"; toks(VF_GET(wait_tokens_, *g.bc, TokList()));
+  { RoutineToken wt = VF_GET(wait_token_, *g.cond, RoutineToken());
+    canon += "co" + std::to_string(VF_SIZE(conds_, *g.cond, (size_t)99)) + "." + std::to_string(g.cpending) + (wt.isNull() ? "n" : std::to_string(tok2idx(wt))); }
   if (g_states.insert(std::hash<std::string>()(canon)).second) shm->states++;
 }
 
@@ -301,19 +345,23 @@ static unsigned alive_mask() { unsigned m = 0; for (int r = 0; r < g.nrt; r++) i
 
 // The Scheduler is given this forwarding proxy of the real loop; it only adds a main-context call in front of every deferred call the
 // scheduler queues (as if the main context had queued its own deferred call just before), everything else is the real loop.
+// Every way of deferring a call is wrapped (runNext / run / runInLoop), so the main context keeps its step whichever the scheduler uses.
+// `alive` is cleared when the Scheduler has been destroyed: deferred calls that are still queued then belong to a dead object and are
+// dropped (what a destroyed Scheduler leaves queued on its loop is outside the property).
 struct TapLoop : public event::Loop {
-  event::Loop *real; std::function<void()> hook;
+  event::Loop *real; std::function<void()> hook; std::shared_ptr<bool> alive = std::make_shared<bool>(true);
   explicit TapLoop(event::Loop *r) : real(r) {}
+  Func wrap(Func g) { std::shared_ptr<bool> a = alive; return [this, a, g] { if (!*a) return; if (hook) hook(); g(); }; }
   void runLoop(Mode m) override { real->runLoop(m); }
   void exitLoop(const std::chrono::milliseconds &w) override { real->exitLoop(w); }
   bool isInLoopThread() override { return real->isInLoopThread(); }
   bool isRunning() const override { return real->isRunning(); }
-  RunId runInLoop(Func &&f, const std::string &w) override { return real->runInLoop(std::move(f), w); }
-  RunId runInLoop(const Func &f, const std::string &w) override { return real->runInLoop(f, w); }
-  RunId runNext(Func &&f, const std::string &w) override { Func g = std::move(f); return real->runNext([this, g] { if (hook) hook(); g(); }, w); }
-  RunId runNext(const Func &f, const std::string &w) override { Func g = f; return real->runNext([this, g] { if (hook) hook(); g(); }, w); }
-  RunId run(Func &&f, const std::string &w) override { return real->run(std::move(f), w); }
-  RunId run(const Func &f, const std::string &w) override { return real->run(f, w); }
+  RunId runInLoop(Func &&f, const std::string &w) override { return real->runInLoop(wrap(std::move(f)), w); }
+  RunId runInLoop(const Func &f, const std::string &w) override { return real->runInLoop(wrap(f), w); }
+  RunId runNext(Func &&f, const std::string &w) override { return real->runNext(wrap(std::move(f)), w); }
+  RunId runNext(const Func &f, const std::string &w) override { return real->runNext(wrap(f), w); }
+  RunId run(Func &&f, const std::string &w) override { return real->run(wrap(std::move(f)), w); }
+  RunId run(const Func &f, const std::string &w) override { return real->run(wrap(f), w); }
   bool cancel(RunId id) override { return real->cancel(id); }
   event::FdEvent *newFdEvent(const std::string &w) override { return real->newFdEvent(w); }
   event::TimerEvent *newTimerEvent(const std::string &w) override { return real->newTimerEvent(w); }
@@ -324,8 +372,7 @@ struct TapLoop : public event::Loop {
   void cleanup() override { real->cleanup(); }
 };
 
-// One real Loop per PROGRAM, one fresh Scheduler + primitives per RUN (program x main schedule). The loop is reused by the next
-// run of the same program only if its deferred-call queue is provably empty after the teardown pass; otherwise it is replaced.
+// One real Loop and one fresh Scheduler + primitives per RUN (program x main schedule).
 static event::Loop *g_loop = nullptr;
 static void drop_loop() { delete g_loop; g_loop = nullptr; }
 
@@ -336,34 +383,41 @@ static RunOut run(const Prog &p, const std::vector<Act> &sched, bool want_text) 
   event::Loop *loop = g_loop;
   {
     TapLoop tap(loop);
-    Scheduler sch(&tap); Channel<int> ch(sch); Mutex mu(sch); Semaphore sem(sch, p.param); Broadcast bc(sch);
+    std::unique_ptr<Scheduler> schp(new Scheduler(&tap)); Scheduler &sch = *schp; Channel<int> ch(sch); Mutex mu(sch); Semaphore sem(sch, p.param); Broadcast bc(sch);
     Condition<int> cond(sch, p.param ? Condition<int>::Logic::kAny : Condition<int>::Logic::kAll);
     g.sch = &sch; g.ch = &ch; g.mu = &mu; g.sem = &sem; g.bc = &bc; g.cond = &cond;
     g.nrt = 0; g.NR = p.nr; g.sent = g.nrecv = 0; g.holders = 0; g.acq = g.rel = 0; g.init = p.param; g.any_logic = p.param != 0;
     for (int i = 0; i < MAXR; i++) { g.R[i] = RInfo(); g.bposted[i] = false; }
-    g.cwaiter = -1; g.cpending = 0; g.csat = false; g.mainmask = 0; g.epoch = 0; g.in_cleanup = false; g.nchild = 0; g.viols.clear(); g.trace.clear();
-    int npass = 0, k = 0, sessions = 1; size_t ai = 0; bool cleaned = false, first = true, tail = false;
+    g.cwaiter = -1; g.cpending = 0; g.mainmask = 0; g.epoch = 0; g.in_cleanup = false; g.nchild = 0; g.viols.clear(); g.trace.clear();
+    g.cstale = false; for (int i = 0; i < MAXR; i++) g.joined[i] = false;
+    int npass = 0, k = 0, sessions = 1, respawn_wait = 0, stall = 0; size_t ai = 0; bool cleaned = false, first = true, tail = false;
+    auto respawn = [&] { g.nchild = 0; int base = g.nrt; for (int r = 0; r < p.nr; r++) spawn(p.s[r], base); };
     // cleanup(): every started routine must come back from its blocking call with failure and terminate. The FIRST mid-run cleanup
     // does not end the run: the same Scheduler and the same primitives (with whatever values / units / holder the first session left,
     // which the reference model carries over) are used again - the program's routines are created a second time and the schedule goes on.
-    auto cleanup = [&](bool midrun) {
+    // mode: 1 = mid-run cleanup(), second session created in the same loop callback; 2 = mid-run cleanup(), second session created after
+    // the loop has had a turn; 0 = end of the run: the Scheduler is DESTROYED with whatever is still alive (its destructor has to do
+    // what cleanup() does), before the primitives go.
+    auto cleanup = [&](int mode) {
+      const bool midrun = mode != 0;
       shm->phase = PH_CLEANUP;
       unsigned must_die = 0;
       for (int r = 0; r < g.nrt; r++) { RInfo &X = g.R[r]; if (X.created && X.started && !X.finished) { must_die |= 1u << r; if (rc_blocking(X.blocked)) X.must_fail = true; } }
       g.epoch++; g.in_cleanup = true;
-      sch.cleanup(); shm->transitions++;
+      if (midrun) sch.cleanup(); else { if (must_die) shm->dtors_live++; schp.reset(); *tap.alive = false; g.sch = nullptr; }
+      shm->transitions++;
       g.in_cleanup = false;
       for (int r = 0; r < g.nrt; r++) {
         RInfo &X = g.R[r]; if (!X.created) continue;
-        if ((must_die >> r & 1) && !X.finished) viol("cleanup-started-routine-not-terminated");
+        if ((must_die >> r & 1) && !X.finished) viol(midrun ? "cleanup-started-routine-not-terminated" : "scheduler-destroyed-started-routine-not-terminated");
         if (!(must_die >> r & 1) && !X.finished && X.started) viol("cleanup-routine-started-during-cleanup-left-alive");
         if (!X.finished && !X.started) X.dropped = X.finished = true;      // never started: cleanup() just removes it
       }
-      if (!sch.d_->routine_cabinet.empty()) viol("cleanup-left-routines-registered");
+      if (midrun && !sch.d_->routine_cabinet.empty()) viol("cleanup-left-routines-registered");
       model_check();
       if (midrun && sessions == 1 && g_reuse && g.viols.empty() && g.nrt + p.nr <= MAXR) {
-        sessions = 2; g.mainmask |= 8; g.nchild = 0; shm->sessions2++;
-        int base = g.nrt; for (int r = 0; r < p.nr; r++) spawn(p.s[r], base);
+        sessions = 2; g.mainmask |= 8; shm->sessions2++;
+        if (mode == 2) { respawn_wait = 3; shm->sessions2_turn++; } else respawn();
       } else cleaned = true;
     };
     // Where the main context acts. Leaving runLoop() drains all deferred calls (the scheduler runs until idle), so runLoop(kOnce) per step
@@ -373,12 +427,13 @@ static RunOut run(const Prog &p, const std::vector<Act> &sched, bool want_text) 
     // A `pass` in a main schedule = let the next scheduler round happen.
     bool done = false;
     auto apply_actions = [&] {
-      while (ai < sched.size() && sched[ai].k != A_PASS && !cleaned) {
+      while (ai < sched.size() && sched[ai].k != A_PASS && !cleaned && !respawn_wait) {
         const Act &a = sched[ai++];
         shm->phase = PH_ACTION; shm->transitions++;
         if (a.k == A_RESUME) { g.mainmask |= 1; do_resume(a.r); }
         else if (a.k == A_CANCEL) { g.mainmask |= 2; do_cancel(a.r); }
-        else if (a.k == A_CLEANUP) { shm->cleanups_mid++; cleanup(true); }
+        else if (a.k == A_CLEANUP || a.k == A_CLEANUPT) { shm->cleanups_mid++; cleanup(a.k == A_CLEANUP ? 1 : 2); }
+        else if (a.k == A_CREATE) { g.mainmask |= 4; g.epoch++; shm->maincreates++; if (g.nrt < MAXR) spawn(p.s[0], -1); }
         else { g.mainmask |= 4; g.epoch++; shm->mainposts++;
           if (a.k == A_SEND) do_send(); else if (a.k == A_REL) do_rel(); else if (a.k == A_BPOST) do_bpost(); else do_cpost(a.k == A_CPOST1 ? 1 : 2); }
         g.trace.push_back(0xfe000000u | a.k << 8 | a.r);
@@ -387,13 +442,14 @@ static RunOut run(const Prog &p, const std::vector<Act> &sched, bool want_text) 
     };
     auto finish = [&] { done = true; loop->exitLoop(); };
     tap.hook = [&] {
-      if (done || quiescent()) return;                 // a schedule() call with nothing to run is not a point
-      shm->phase = PH_PASS;
+      if (done || respawn_wait || quiescent()) return;                 // a schedule() call with nothing to run is not a point
+      shm->phase = PH_PASS; shm->hookpoints++; stall = 0;
       if (!first) g.trace.push_back(0xff000000u);
       first = false;
       model_check();
       if (!tail) apply_actions();
       if (cleaned) { out.alive_at[0] = 0; finish(); return; }
+      if (respawn_wait) return;                        // cleanup+turn: the deferred calls queued so far run with nothing ready
       if (!tail && ai < sched.size()) { ai++; npass++; shm->transitions++; return; }   // `pass`: the round that follows
       tail = true; out.alive_at[k] = (uint16_t)alive_mask();
       if (npass >= MAXPASS) { finish(); return; }
@@ -401,15 +457,24 @@ static RunOut run(const Prog &p, const std::vector<Act> &sched, bool want_text) 
     };
     std::function<void()> idle = [&] {
       if (done) return;
-      if (!quiescent()) { loop->runNext(idle); return; }
+      if (respawn_wait) { if (--respawn_wait == 0) respawn(); loop->runNext(idle); return; }   // the loop has had its turn(s): second session
+      if (!quiescent()) {
+        // Routines are ready but no scheduler round picks them up, loop turn after loop turn: they will never run (a wake-up, a
+        // create, a cancel that made a routine ready is lost). On a working scheduler a round follows within one loop turn.
+        if (++stall > 8) { viol("ready-routines-never-run-no-scheduler-round-in-8-loop-turns"); finish(); return; }
+        loop->runNext(idle); return; }
+      stall = 0;
       shm->phase = PH_PASS;
       if (!first) g.trace.push_back(0xff000000u);
       first = false;
       qcheck();
       for (;;) {
+        size_t ai0 = ai;
         if (!tail) apply_actions();
         if (cleaned) { out.alive_at[0] = 0; finish(); return; }
+        if (respawn_wait) { loop->runNext(idle); return; }
         if (!quiescent()) { loop->runNext(idle); return; }                        // an action made a routine ready: `hook` goes on
+        if (ai != ai0) qcheck();                                                  // still idle after the actions (they woke nobody): judged again
         if (!tail && ai < sched.size()) { ai++; continue; }                       // a `pass` with nothing to run
         tail = true; out.alive_at[k] = (uint16_t)alive_mask(); finish(); return;
       }
@@ -418,7 +483,7 @@ static RunOut run(const Prog &p, const std::vector<Act> &sched, bool want_text) 
     for (int r = 0; r < p.nr; r++) spawn(p.s[r], 0);
     loop->runLoop(event::Loop::Mode::kForever);
     tap.hook = nullptr;
-    if (!cleaned && !quiescent()) viol("no-quiescence-within-40-passes");
+    if (!cleaned && !quiescent() && g.viols.empty()) viol("no-quiescence-within-40-passes");
     out.tail_passes = k; out.cleaned = cleaned;
     // outcome class of the idle state reached (before the final cleanup)
     { int fin = 0, fl = 0, dr = 0, ns = 0, sus[NOPS] = {0}; for (int r = 0; r < g.nrt; r++) { RInfo &X = g.R[r]; if (X.dropped) dr++; else if (X.finished) { X.failed ? fl++ : fin++; } else if (!X.started) ns++; else if (X.blocked >= 0) sus[X.blocked]++; }
@@ -428,16 +493,15 @@ static RunOut run(const Prog &p, const std::vector<Act> &sched, bool want_text) 
       if (dr) out.outcome += " removed-unstarted-by-cleanup x" + std::to_string(dr);
       if (sessions == 2) out.outcome += cleaned ? " (second session, after its mid-run cleanup)" : " (second session on the cleaned-up scheduler)";
       else if (cleaned) out.outcome += " (after mid-run cleanup)"; }
-    if (!cleaned) cleanup(false);
+    cleanup(0);          // destroy the Scheduler (after a terminal mid-run cleanup it is empty, otherwise routines are still alive)
     shm->phase = PH_TEARDOWN;
-    loop->runNext([] {}); loop->runLoop(event::Loop::Mode::kOnce);   // drain the queued Scheduler::schedule callbacks while the scheduler is alive
+    loop->runNext([] {}); loop->runLoop(event::Loop::Mode::kOnce);   // drain the loop (calls queued by the dead Scheduler are dropped by the proxy)
     size_t th = 1469598103934665603ull; for (uint32_t e : g.trace) { th ^= e; th *= 1099511628211ull; }
     if (g_traces.insert(th).second) shm->traces++;
     if (want_text || !g.viols.empty()) out.trace = trace_str();
     out.viols = g.viols;
   }
-  event::CommonLoop *cl = dynamic_cast<event::CommonLoop *>(loop);
-  if (!cl || !cl->run_next_func_queue_.empty() || !cl->run_in_loop_func_queue_.empty()) drop_loop();
+  drop_loop();
   return out;
 }
 
@@ -493,7 +557,15 @@ static void explore(const Prog &p, std::vector<Act> &sched, int acts_left, const
       sched.resize(base); for (int i = 0; i < k; i++) sched.push_back({A_PASS, 0}); sched.push_back({kind, 0});
       explore(p, sched, acts_left - 1, mine);
     }
-    if (k < o.tail_passes) { sched.resize(base); for (int i = 0; i < k; i++) sched.push_back({A_PASS, 0}); sched.push_back({A_CLEANUP, 0}); explore(p, sched, acts_left - 1, mine); }
+    // cleanup before every round AND at the idle point while something is still alive (suspended); the first cleanup of a run starts a
+    // second session - at once, or (cleanup+turn) after the loop has had a turn with nothing ready
+    if (k < o.tail_passes || o.alive_at[k]) {
+      bool had = false; for (size_t i = 0; i < base; i++) if (sched[i].k == A_CLEANUP || sched[i].k == A_CLEANUPT) had = true;
+      for (uint8_t kind : {(uint8_t)A_CLEANUP, (uint8_t)A_CLEANUPT}) {
+        if (kind == A_CLEANUPT && (had || !g_reuse)) continue;
+        sched.resize(base); for (int i = 0; i < k; i++) sched.push_back({A_PASS, 0}); sched.push_back({kind, 0}); explore(p, sched, acts_left - 1, mine);
+      }
+    }
   }
   sched.resize(base);
 }
@@ -522,6 +594,8 @@ static int enum_main(int argc, char **argv) {
   // optional flags: "nomain" = the main context does not produce, "noreuse" = a mid-run cleanup ends the run (no second session)
   std::string flags = argc > 11 ? argv[11] : "";
   g_reuse = flags.find("noreuse") == std::string::npos;
+  if (flags.find("stackdefault") != std::string::npos) STACK = ROUTINE_STACK_DEFAULT_SIZE;     // create()'s default stack size
+  if (flags.find("create") != std::string::npos) g_main_ops.push_back(A_CREATE);               // the main context also creates routines mid-run
   if (flags.find("nomain") == std::string::npos) {
     auto has = [&](int o) { for (int a : alpha) if (a == o) return true; return false; };
     if (has(RECV)) g_main_ops.push_back(A_SEND);
@@ -580,8 +654,11 @@ static int enum_main(int argc, char **argv) {
     start = shm->cur_prog + nparts; shm->programs++;
     if (++restarts >= 4) { printf("@CAP %s: 4 hung/crashed programs in part %ld/%ld, enumeration stopped at program %ld of %ld\n", tag.c_str(), part, nparts, start, total); break; }
   }
-  printf("@STAT loops=%ld programs=%ld executions=%ld transitions=%ld states=%ld traces=%ld quiescent_checks=%ld violating_runs=%ld cancels=%ld midrun_cleanups=%ld main_context_posts=%ld second_sessions=%ld\n",
-         shm->loops, shm->programs, shm->executions, shm->transitions, shm->states, shm->traces, shm->qchecks, shm->viol_runs, shm->cancels, shm->cleanups_mid, shm->mainposts, shm->sessions2);
+  // the main context's step before every scheduler round hangs on the deferred calls the Scheduler queues through the loop proxy: if
+  // routines ran but that step never happened, every "before a round" point of the rule has silently disappeared
+  if (shm->started > 0 && shm->hookpoints == 0) printf("@CAP %s: harness-blind - routines ran but no scheduler round was ever announced through the loop proxy (part %ld/%ld)\n", tag.c_str(), part, nparts);
+  printf("@STAT loops=%ld programs=%ld executions=%ld transitions=%ld states=%ld traces=%ld quiescent_checks=%ld violating_runs=%ld cancels=%ld midrun_cleanups=%ld main_context_posts=%ld second_sessions=%ld second_sessions_after_loop_turn=%ld scheduler_rounds_announced=%ld destroyed_with_live_routines=%ld main_context_creates=%ld\n",
+         shm->loops, shm->programs, shm->executions, shm->transitions, shm->states, shm->traces, shm->qchecks, shm->viol_runs, shm->cancels, shm->cleanups_mid, shm->mainposts, shm->sessions2, shm->sessions2_turn, shm->hookpoints, shm->dtors_live, shm->maincreates);
   printf("@INFO %s part %ld/%ld: scripts=%ld programs_total=%ld NR=%d maxlen=%d maxtotal=%d maxacts=%d param=%d restarts=%d\n", tag.c_str(), part, nparts, NS, total, NR, maxlen, maxtotal, maxacts, param, restarts);
   return 0;
 }
@@ -591,6 +668,7 @@ static int replay_main(const std::string &t) {
   Prog p; std::vector<Act> sched;
   size_t q = t.find("param="); if (q != std::string::npos) p.param = atoi(t.c_str() + q + 6);
   if (getenv("C18_NOREUSE")) g_reuse = false;
+  if (getenv("C18_STACKDEFAULT")) STACK = ROUTINE_STACK_DEFAULT_SIZE;
   for (int r = 0; r < MAXNR; r++) {
     std::string key = "r" + std::to_string(r) + "=["; size_t a = t.find(key); if (a == std::string::npos) break; a += key.size(); size_t b = t.find(']', a);
     p.nr = r + 1; std::string body = t.substr(a, b - a); size_t i = 0;
@@ -599,6 +677,7 @@ static int replay_main(const std::string &t) {
   size_t a = t.find("main=["); if (a != std::string::npos) { a += 6; size_t b = t.find(']', a); std::string body = t.substr(a, b - a); size_t i = 0;
     while (i < body.size()) { size_t j = body.find(' ', i); if (j == std::string::npos) j = body.size(); std::string w = body.substr(i, j - i); i = j + 1; if (w.empty()) continue;
       if (w == "pass") sched.push_back({A_PASS, 0}); else if (w == "cleanup") sched.push_back({A_CLEANUP, 0});
+      else if (w == "cleanup+turn") sched.push_back({A_CLEANUPT, 0}); else if (w == "create") sched.push_back({A_CREATE, 0});
       else if (w == "send") sched.push_back({A_SEND, 0}); else if (w == "rel") sched.push_back({A_REL, 0}); else if (w == "bpost") sched.push_back({A_BPOST, 0});
       else if (w == "cpost1") sched.push_back({A_CPOST1, 0}); else if (w == "cpost2") sched.push_back({A_CPOST2, 0});
       else if (w.compare(0, 8, "resume(r") == 0) sched.push_back({A_RESUME, (uint8_t)atoi(w.c_str() + 8)}); else if (w.compare(0, 8, "cancel(r") == 0) sched.push_back({A_CANCEL, (uint8_t)atoi(w.c_str() + 8)}); } }
